@@ -19,7 +19,7 @@ from trace import validate_traces
 
 
 def cases(ctx, maxn):
-    cfg = f"SPECIFICATION Spec\nCONSTANTS MaxN = {maxn}\n          WrapperConsumes = FALSE\n          ReleaseWakesWaiter = TRUE\n          PauseCoversEncode = FALSE\nINVARIANT Export\nCHECK_DEADLOCK FALSE\n"
+    cfg = f"SPECIFICATION Spec\nCONSTANTS MaxN = {maxn}\n          WrapperConsumes = FALSE\n          ReleaseWakesWaiter = TRUE\n          SentinelOnlyIfEmpty = FALSE\n          PauseCoversEncode = FALSE\nINVARIANT Export\nCHECK_DEADLOCK FALSE\n"
     open(f"{ctx.work}/Release_cases_{maxn}.cfg", "w").write(cfg)
     r = must_ok(run_tlc("Release", f"{ctx.work}/Release_cases_{maxn}.cfg", workdir=ctx.work, workers=1, timeout=600))
     ctx.add_tlc(r)
@@ -28,7 +28,10 @@ def cases(ctx, maxn):
         p = _P(r.out)
         p.i = m.start()
         v = p.value()[1]
-        key = (v["svc"], int(v["n"]), v["pos"], int(v["k"]), bool(v["tmo"]), bool(v["enc"]))
+        key = (v["svc"], int(v["n"]), v["pos"], int(v["k"]), bool(v["tmo"]), bool(v["enc"]), int(v["q"]))
+        # (responses queued ahead of the release request matter where this side's caller is waiting for the next one)
+        if key[6] and key[2] != "ascu_wait":
+            continue
         # (a sub-operation whose data set cannot be encoded matters for the arrivals after it)
         if key[5] and not (key[4] and key[2] in ("final", "between", "reactor", "check") and (key[2] != "check" or key[3] > key[1])):
             continue
@@ -37,7 +40,7 @@ def cases(ctx, maxn):
             continue
         if key not in seen:
             seen.add(key)
-            out.append({"svc": key[0], "n": key[1], "pos": key[2], "k": key[3], "tmo": key[4], "enc": key[5]})
+            out.append({"svc": key[0], "n": key[1], "pos": key[2], "k": key[3], "tmo": key[4], "enc": key[5], "q": key[6]})
     if len(out) < 30:
         raise MachineryError(f"only {len(out)} arrival points exported")
     return out
@@ -64,6 +67,10 @@ def run(ctx: Ctx) -> int:
     ctx.add_tlc(r4)
     if r4.violated != "C07_Answered":
         raise MachineryError(f"a reactor left paused by a failed encoding is not refuted by TLC: {r4.violated!r}")
+    r5 = must_ok(run_tlc("Release", "Release_sentinel.cfg", workdir=ctx.work, workers=4, timeout=900))
+    ctx.add_tlc(r5)
+    if r5.violated != "C07_Answered":
+        raise MachineryError(f"a wake-up that is left only when no message is queued is not refuted by TLC: {r5.violated!r}")
     from release_lab import run_case
 
     cs = cases(ctx, 3 if thorough else 2)
@@ -93,14 +100,14 @@ def run(ctx: Ctx) -> int:
     for j, o in enumerate(obs):
         v = vs[j + 1][0]
         ctx.traces += 1
-        ctx.case((o["svc"], o["n"], o["pos"], o["k"], o.get("tmo", True), o.get("enc", False)), nontrivial=o["pos"] not in ("idle", "between"))
+        ctx.case((o["svc"], o["n"], o["pos"], o["k"], o.get("tmo", True), o.get("enc", False), o.get("q", 0)), nontrivial=o["pos"] not in ("idle", "between"))
         if v == "ok":
             continue
         if v in ("UNREACHED", "LOCAL_ABORT"):
             ctx.drifted(f"{v}: scenario {o['svc']} n={o['n']} arrival {o['pos']}[{o['k']}]: {o.get('peer_log')}")
             continue
         ctx.violation({"clause": v, "svc": o["svc"], "pos": o["pos"]},
-                      f"{v}: {o['svc']} handler with {o['n']} results{' (the last one cannot be encoded)' if o.get('enc') else ''}, A-RELEASE-RQ arriving at {o['pos']}[{o['k']}]: peer saw {o['peer_saw']!r}, acceptor released={o.get('acc_released')} "
+                      f"{v}: {o['svc']} handler with {o['n']} results{' (the last one cannot be encoded)' if o.get('enc') else ''}{' (responses queued ahead, slow caller)' if o.get('q') else ''}, A-RELEASE-RQ arriving at {o['pos']}[{o['k']}]: peer saw {o['peer_saw']!r}, acceptor released={o.get('acc_released')} "
                       f"aborted={o.get('acc_aborted')} alive={o.get('acc_alive')} state=Sta{o.get('acc_state')}; peer log {o.get('peer_log')}", o)
     ctx.cov["answer_delay_max_s"] = max([o["t_rp"] for o in obs if o.get("rp")] or [0])
     ctx.sample(obs[0])
